@@ -101,3 +101,405 @@ Proof.
   rewrite H. replace (smem N.eqb r (j_snap b)) with false; [reflexivity|].
   symmetry. apply (smem_false N.eqb N.eqb_eq). exact Hn.
 Qed.
+
+(* ------------------------------------------------------------------ order *)
+Lemma step_log_grows n i n' os : node_step n i = Some (n', os) -> exists new, n_log n' = new ++ n_log n.
+Proof.
+  intro H. destruct (touches_pub i) eqn:Ht.
+  - destruct i; simpl in Ht; try discriminate; simpl in H.
+    + destruct (negb (valid_name p && valid_name s)); fst_of H; exists []; reflexivity.
+    + destruct (find_job j (n_jobs n)); [|discriminate]. destruct (smem N.eqb r (j_todo j0)); [|discriminate].
+      fst_of H. simpl. eexists [_]. reflexivity.
+    + destruct (find_job j (n_jobs n)); [|discriminate]. destruct (j_todo j0); [|discriminate].
+      destruct (j_rsnap j0); [discriminate|]. fst_of H. exists []. reflexivity.
+    + destruct (find_job j (n_jobs n)); [|discriminate]. destruct (smem str_eqb x (j_rtodo j0)); [|discriminate].
+      fst_of H. exists []. reflexivity.
+    + destruct m; try discriminate. destruct (deliver_exact _ _ _ _ _ _ _ _ H) as [_ E]. eexists. exact E.
+  - pose proof (step_pub _ _ _ _ H Ht) as E. unfold pubpart in E. inversion E. exists []. simpl. congruence.
+Qed.
+
+Lemma run_log_grows ins : forall n n' os, node_run n ins = Some (n', os) -> exists new, n_log n' = new ++ n_log n.
+Proof.
+  induction ins as [|i r IH]; simpl; intros n n' os H.
+  - inversion H; subst. exists []. reflexivity.
+  - destruct (node_step n i) as [[n1 o1]|] eqn:E; [|discriminate].
+    destruct (node_run n1 r) as [[n2 o2]|] eqn:E2; [|discriminate]. inversion H; subst.
+    destruct (step_log_grows _ _ _ _ E) as [new1 E1]. destruct (IH _ _ _ E2) as [new2 E3].
+    exists (new2 ++ new1). rewrite E3, E1, app_assoc. reflexivity.
+Qed.
+
+(* a publication keeps its identity, snapshot and contents; the receivers still to serve only shrink *)
+Definition job_le (b b' : job) : Prop :=
+  j_id b' = j_id b /\ j_snap b' = j_snap b /\ j_pub b' = j_pub b /\ j_sig b' = j_sig b /\ j_args b' = j_args b /\
+  (forall r, In r (j_todo b') -> In r (j_todo b)).
+
+Lemma job_le_refl b : job_le b b.
+Proof. unfold job_le. tauto. Qed.
+
+Lemma job_le_trans a b c : job_le a b -> job_le b c -> job_le a c.
+Proof.
+  unfold job_le. intros (A1 & A2 & A3 & A4 & A5 & A6) (B1 & B2 & B3 & B4 & B5 & B6).
+  repeat split; try congruence. intros r Hr. apply A6, B6, Hr.
+Qed.
+
+Lemma put_job_keeps b' l b : In b l -> j_id b <> j_id b' -> In b (put_job b' l).
+Proof.
+  induction l as [|c l IH]; simpl; [tauto|]. intros [->|H] Hn.
+  - destruct (j_id b =? j_id b') eqn:E; [apply N.eqb_eq in E; contradiction | left; reflexivity].
+  - destruct (j_id c =? j_id b'); [right; exact H | right; apply IH; assumption].
+Qed.
+
+Lemma step_job_persists nm n i n' os b :
+  node_step n i = Some (n', os) -> JInv nm n -> In b (n_jobs n) -> exists b', In b' (n_jobs n') /\ job_le b b'.
+Proof.
+  intros H HJ Hb. destruct (touches_pub i) eqn:Ht.
+  2: { pose proof (step_pub _ _ _ _ H Ht) as E. unfold pubpart in E. inversion E as [[E1 E2 E3 E4]].
+       exists b. rewrite E2. split; [exact Hb | apply job_le_refl]. }
+  destruct HJ as (H0 & H1 & H2 & H3 & H4 & H5).
+  assert (Hrep : forall b0 b1, In b0 (n_jobs n) -> j_id b1 = j_id b0 -> job_le b0 b1 ->
+                 exists b', In b' (put_job b1 (n_jobs n)) /\ job_le b b').
+  { intros b0 b1 Hb0 Hid Hle. destruct (N.eq_dec (j_id b) (j_id b0)) as [E|Ne].
+    - assert (b = b0) by (eapply job_unique; eauto). subst b0. exists b1. split; [|exact Hle].
+      apply put_job_has. rewrite Hid. apply in_map. exact Hb.
+    - exists b. split; [apply put_job_keeps; [exact Hb | congruence] | apply job_le_refl]. }
+  destruct i; simpl in Ht; try discriminate; simpl in H.
+  - destruct (negb (valid_name p && valid_name s)); fst_of H; simpl.
+    + exists b. split; [exact Hb | apply job_le_refl].
+    + exists b. split; [apply in_app_iff; left; exact Hb | apply job_le_refl].
+  - destruct (find_job j (n_jobs n)) as [b0|] eqn:Ef; [|discriminate].
+    destruct (smem N.eqb r (j_todo b0)); [|discriminate]. fst_of H. simpl.
+    apply find_job_In in Ef as [Hb0 _]. apply (Hrep b0); [exact Hb0 | reflexivity|].
+    unfold job_le. simpl. repeat split; try reflexivity. intros r0 Hr0. apply (In_sdel N.eqb N.eqb_eq) in Hr0. tauto.
+  - destruct (find_job j (n_jobs n)) as [b0|] eqn:Ef; [|discriminate].
+    destruct (j_todo b0) eqn:Et; [|discriminate]. destruct (j_rsnap b0); [discriminate|]. fst_of H. simpl.
+    apply find_job_In in Ef as [Hb0 _]. apply (Hrep b0); [exact Hb0 | reflexivity|].
+    unfold job_le. simpl. repeat split; try reflexivity. intros r0 [].
+  - destruct (find_job j (n_jobs n)) as [b0|] eqn:Ef; [|discriminate].
+    destruct (smem str_eqb x (j_rtodo b0)); [|discriminate]. fst_of H. simpl.
+    apply find_job_In in Ef as [Hb0 _]. apply (Hrep b0); [exact Hb0 | reflexivity|].
+    unfold job_le. simpl. repeat split; try reflexivity. tauto.
+  - destruct m; try discriminate. fst_of H. unfold deliver_remote.
+    destruct (alookup str_eqb (key3 from pub sig) (n_lsubs n)); simpl; exists b; (split; [exact Hb | apply job_le_refl]).
+Qed.
+
+Lemma run_job_persists nm ins : forall n n' os b,
+  node_run n ins = Some (n', os) -> Forall (fun i => input_ok nm i /\ input_wf i) ins -> NInv nm n ->
+  In b (n_jobs n) -> exists b', In b' (n_jobs n') /\ job_le b b'.
+Proof.
+  induction ins as [|i r IH]; simpl; intros n n' os b H Hf Hn Hb.
+  - inversion H; subst. exists b. split; [exact Hb | apply job_le_refl].
+  - destruct (node_step n i) as [[n1 o1]|] eqn:E; [|discriminate].
+    destruct (node_run n1 r) as [[n2 o2]|] eqn:E2; [|discriminate]. inversion H; subst.
+    inversion Hf as [|? ? [Hi1 Hi2] Hf']; subst. destruct Hn as [HJ HK].
+    destruct (step_job_persists nm _ _ _ _ _ E HJ Hb) as (b1 & Hb1 & Hle1).
+    assert (Hn1 : NInv nm n1) by (split; [eapply step_JInv; eauto | eapply step_KW; eauto]).
+    destruct (IH _ _ _ _ E2 Hf' Hn1 Hb1) as (b2 & Hb2 & Hle2).
+    exists b2. split; [exact Hb2 | eapply job_le_trans; eauto].
+Qed.
+
+Lemma cnt_app nm j r l1 l2 : cnt nm j r (l1 ++ l2) = (cnt nm j r l1 + cnt nm j r l2)%nat.
+Proof. unfold cnt. rewrite filter_app, app_length. reflexivity. Qed.
+
+(* Publication order per publishing thread (local receivers).  A thread publishes sequentially: when
+   it starts publication j2 its earlier publication j1 has served all its receivers.  From such a
+   state on, whatever happens, the queue only grows at its newer end, j1 adds no further record, and
+   j2 had no record before: every record of j1 is older than every record of j2, in every queue. *)
+Lemma order_local nm n1 ins n2 os b1 j2 :
+  NInv nm n1 -> node_run n1 ins = Some (n2, os) -> Forall (fun i => input_ok nm i /\ input_wf i) ins ->
+  In b1 (n_jobs n1) -> j_todo b1 = [] -> n_jobctr n1 <= j2 ->
+  exists new, n_log n2 = new ++ n_log n1 /\
+    (forall r, cnt nm (j_id b1) r new = 0%nat) /\ (forall r, cnt nm j2 r (n_log n1) = 0%nat).
+Proof.
+  intros Hn Hr Hf Hb Ht Hj.
+  destruct (run_log_grows _ _ _ _ Hr) as [new Enew]. exists new. split; [exact Enew|]. split.
+  - intro r. destruct (run_job_persists nm _ _ _ _ _ Hr Hf Hn Hb) as (b2 & Hb2 & Hid & Hsnap & _ & _ & _ & Htodo).
+    assert (Hn2 : NInv nm n2) by (eapply run_NInv; eauto).
+    destruct Hn as [(_ & _ & _ & H3 & _) _]. destruct Hn2 as [(_ & _ & _ & H3' & _) _].
+    destruct (H3 b1 Hb) as (_ & _ & _ & K4 & _). destruct (H3' b2 Hb2) as (_ & _ & _ & K4' & _).
+    specialize (K4 r). specialize (K4' r). rewrite Hid, Hsnap, Enew, cnt_app in K4'.
+    assert (Et2 : j_todo b2 = []). { destruct (j_todo b2) as [|x l]; [reflexivity|]. exfalso. rewrite Ht in Htodo. apply (Htodo x). left. reflexivity. }
+    rewrite Et2 in K4'. rewrite Ht in K4. rewrite K4 in K4'.
+    destruct (smem N.eqb r (j_snap b1)); simpl in K4'; lia.
+  - intro r. destruct Hn as [(_ & H1 & _ & _ & H4 & _) _].
+    unfold cnt. destruct (filter (is_local nm j2 r) (n_log n1)) as [|e l] eqn:Ef; [reflexivity|].
+    assert (Hin : In e (filter (is_local nm j2 r) (n_log n1))) by (rewrite Ef; left; reflexivity).
+    apply filter_In in Hin as [Hin Hl]. apply is_local_true in Hl as (p0 & s0 & a0 & ->).
+    destruct (H4 _ _ _ _ _ _ Hin eq_refl) as (b & Hb' & Hid' & _). specialize (H1 b Hb'). lia.
+Qed.
+
+(* ------------------------------------------------------------------ messages to peers *)
+Definition is_sig_to (x : name) (j : N) (o : out) : bool :=
+  match o with OSend y (MSignal _ _ _ j') => str_eqb x y && N.eqb j j' | _ => false end.
+Definition sent (x : name) (j : N) (os : list out) : nat := length (filter (is_sig_to x j) os).
+
+Definition no_signal (os : list out) : Prop := forall y p s a j, ~ In (OSend y (MSignal p s a j)) os.
+
+Lemma send_req_no_signal n id q : no_signal (snd (send_req n id q)).
+Proof.
+  unfold send_req, no_signal. destruct (can_send n (pq_ctx q)); simpl.
+  - intros y p s a j [H|[]]. discriminate.
+  - destruct (complete n id false) as [n1 [[id2 q2]|]]; simpl; tauto.
+Qed.
+
+Lemma handle_reply_no_signal n id ok : no_signal (snd (handle_reply n id ok)).
+Proof.
+  unfold handle_reply. destruct (complete n id ok) as [n1 [[id2 q2]|]]; simpl; [apply send_req_no_signal|].
+  intros y p s a j [].
+Qed.
+
+Lemma no_signal_app a b : no_signal a -> no_signal b -> no_signal (a ++ b).
+Proof. unfold no_signal. intros Ha Hb y p s x j H. apply in_app_iff in H as [H|H]; [eapply Ha | eapply Hb]; eauto. Qed.
+
+Lemma no_signal_res r : no_signal [ORes r].
+Proof. intros y p s a j [E|[]]. discriminate. Qed.
+Lemma no_signal_nil : no_signal [].
+Proof. intros y p s a j []. Qed.
+Lemma no_signal_send_to n x m : (forall p s a j, m <> MSignal p s a j) -> no_signal (send_to n x m).
+Proof.
+  intros Hm y p s a j Hin. unfold send_to in Hin. destruct (can_send n x); [|destruct Hin].
+  destruct Hin as [E|[]]. inversion E; subst. eapply Hm; reflexivity.
+Qed.
+
+Lemma some_snd {A B} (x : A * B) a b : Some x = Some (a, b) -> b = snd x.
+Proof. intro H. inversion H. reflexivity. Qed.
+Ltac snd_of H := apply some_snd in H; rewrite H; clear H.
+
+Ltac ns := first [apply no_signal_res | apply no_signal_nil | apply handle_reply_no_signal
+                  | (apply no_signal_send_to; intros; discriminate)].
+
+Lemma step_no_signal n i n' os : node_step n i = Some (n', os) -> (forall j x, i <> IPubSend j x) -> no_signal os.
+Proof.
+  intros H Hi. destruct i; simpl in H.
+  - destruct (negb (names_ok (resolve_ctx n c) p s)); [snd_of H; ns|].
+    destruct (str_eqb (resolve_ctx n c) (n_name n)).
+    + snd_of H. unfold sub_local. destruct (smem str_eqb p (n_objs n)); simpl; ns.
+    + snd_of H. unfold sub_remote.
+      destruct (alookup str_eqb (key3 (resolve_ctx n c) p s) (n_lsubs n)) as [[|x l]|];
+      try (simpl; ns);
+      (destruct (alookup str_eqb (key3 (resolve_ctx n c) p s) (n_pname n)); [simpl; ns|]);
+      unfold new_request;
+      match goal with |- context [send_req ?a ?b ?c] => pose proof (send_req_no_signal a b c) as Hs; destruct (send_req a b c) end;
+      simpl in *; (apply no_signal_app; [exact Hs | ns]).
+  - destruct (alookup N.eqb call (n_done n)); [|discriminate]. snd_of H. ns.
+  - destruct (negb (names_ok (resolve_ctx n c) p s)); [snd_of H; ns|].
+    destruct (str_eqb (resolve_ctx n c) (n_name n)).
+    + snd_of H. ns.
+    + snd_of H. unfold unsub_remote. destruct (remove_local n (key3 (resolve_ctx n c) p s) r) as [n1 last].
+      destruct last; [|simpl; ns].
+      destruct (alookup str_eqb (key3 (resolve_ctx n c) p s) (n_pname n1)); [simpl; ns|].
+      unfold new_request.
+      match goal with |- context [send_req ?a ?b ?c] => pose proof (send_req_no_signal a b c) as Hs; destruct (send_req a b c) end.
+      simpl in *. apply no_signal_app; [exact Hs | ns].
+  - destruct (negb (valid_name p && valid_name s)); snd_of H; ns.
+  - destruct (find_job j (n_jobs n)); [|discriminate]. destruct (smem N.eqb r (j_todo j0)); [|discriminate]. snd_of H. ns.
+  - destruct (find_job j (n_jobs n)); [|discriminate]. destruct (j_todo j0); [|discriminate].
+    destruct (j_rsnap j0); [discriminate|]. snd_of H. ns.
+  - exfalso. eapply Hi. reflexivity.
+  - snd_of H. ns.
+  - snd_of H. unfold object_removed. simpl. intros y p0 s0 a0 j1 Hin.
+    apply in_flat_map in Hin as [e [_ Hin]]. apply in_flat_map in Hin as [x [_ Hin]].
+    unfold send_to in Hin. destruct (can_send _ x); [destruct Hin as [E|[]]; discriminate | destruct Hin].
+  - destruct m; snd_of H.
+    + simpl; ns.
+    + unfold handle_sub_request.
+      destruct sub; [destruct (smem str_eqb pub (n_objs n))|]; simpl; ns.
+    + ns.
+    + ns.
+  - snd_of H. ns.
+  - snd_of H. ns.
+  - snd_of H. ns.
+Qed.
+
+Lemma sent_app x j a b : sent x j (a ++ b) = (sent x j a + sent x j b)%nat.
+Proof. unfold sent. rewrite filter_app, app_length. reflexivity. Qed.
+
+Lemma no_signal_sent x j os : no_signal os -> sent x j os = 0%nat.
+Proof.
+  intro H. unfold sent. destruct (filter (is_sig_to x j) os) as [|e l] eqn:Ef; [reflexivity|].
+  assert (Hin : In e (filter (is_sig_to x j) os)) by (rewrite Ef; left; reflexivity).
+  apply filter_In in Hin as [Hin Hl]. destruct e as [y m|]; [|discriminate]. destruct m; try discriminate.
+  exfalso. eapply H. exact Hin.
+Qed.
+
+(* every signal message handed to the router belongs to a publication, carries its contents, goes to
+   a peer of its remote snapshot that has been served, and there is at most one per publication and
+   peer (none when the peer vanished in between) *)
+Definition SInv (n : node) (os : list out) : Prop :=
+  (forall b, In b (n_jobs n) -> forall x,
+      (sent x (j_id b) os <= if smem str_eqb x (opt_list (j_rsnap b)) && negb (smem str_eqb x (j_rtodo b)) then 1 else 0)%nat) /\
+  (forall x p s a j, In (OSend x (MSignal p s a j)) os ->
+      exists b, In b (n_jobs n) /\ j_id b = j /\ j_pub b = p /\ j_sig b = s /\ j_args b = a /\ In x (opt_list (j_rsnap b))).
+
+Lemma step_SInv nm n i n' os0 os :
+  node_step n i = Some (n', os) -> JInv nm n -> SInv n os0 -> SInv n' (os0 ++ os).
+Proof.
+  intros H HJ [S1 S2].
+  destruct (N.eq_dec 0 0) as [_|]; [|contradiction].
+  assert (Hcase : (exists j x, i = IPubSend j x) \/ (forall j x, i <> IPubSend j x)).
+  { destruct i; try (right; intros; discriminate). left. eauto. }
+  destruct Hcase as [(j & x & ->)|Hi].
+  - simpl in H. destruct (find_job j (n_jobs n)) as [b|] eqn:Ef; [|discriminate].
+    destruct (smem str_eqb x (j_rtodo b)) eqn:Ex; [|discriminate].
+    apply find_job_In in Ef as [Hb Hid]. pose proof HJ as (H0 & H1 & H2 & H3 & H4 & H5).
+    destruct (H3 b Hb) as (K1 & K2 & K3 & K4 & K5).
+    assert (Hx : In x (j_rtodo b)) by (apply smem_S_In; exact Ex).
+    destruct (j_rsnap b) as [l|] eqn:Ers; [|rewrite K5 in Hx; destruct Hx].
+    destruct K5 as (M1 & M2 & M3 & M4).
+    set (b' := mkJob (j_id b) (j_pub b) (j_sig b) (j_args b) (j_snap b) (j_todo b) (Some l) (sdel str_eqb x (j_rtodo b))).
+    assert (E' : n' = w_jobs (put_job b' (n_jobs n)) n /\ os = send_to n x (MSignal (j_pub b) (j_sig b) (j_args b) j)) by (inversion H; auto).
+    destruct E' as [-> ->]. simpl. split.
+    + intros b2 Hb2 y. apply In_put_job in Hb2 as [->|[Hb2 Hne]]; [| |assumption].
+      * simpl. rewrite sent_app. specialize (S1 b Hb y). rewrite Ers in S1. simpl in S1.
+        destruct (str_eq_dec y x) as [->|Hyx].
+        -- rewrite Ex in S1. rewrite andb_false_r in S1.
+           assert (E3 : smem str_eqb x (sdel str_eqb x (j_rtodo b)) = false).
+           { apply (smem_false str_eqb str_eqb_spec). intro Hx'. apply (In_sdel str_eqb str_eqb_spec) in Hx' as [Hx' _]. congruence. }
+           rewrite E3. assert (E4 : smem str_eqb x l = true) by (apply smem_S_In; apply M3; exact Hx). rewrite E4. simpl.
+           assert (sent x (j_id b) (send_to n x (MSignal (j_pub b) (j_sig b) (j_args b) j)) <= 1)%nat.
+           { unfold send_to. destruct (can_send n x); unfold sent; simpl; [destruct (str_eqb x x && (j_id b =? j)); simpl; lia | lia]. }
+           lia.
+        -- assert (E5 : sent y (j_id b) (send_to n x (MSignal (j_pub b) (j_sig b) (j_args b) j)) = 0%nat).
+           { unfold send_to. destruct (can_send n x); unfold sent; simpl; [|reflexivity].
+             replace (str_eqb y x) with false by (symmetry; apply str_eqb_neq; exact Hyx). reflexivity. }
+           rewrite E5, Nat.add_0_r.
+           assert (E6 : smem str_eqb y (sdel str_eqb x (j_rtodo b)) = smem str_eqb y (j_rtodo b)).
+           { destruct (smem str_eqb y (j_rtodo b)) eqn:Eold.
+             - apply smem_S_In. apply (In_sdel str_eqb str_eqb_spec). split; [exact Hyx | apply smem_S_In; exact Eold].
+             - apply (smem_false str_eqb str_eqb_spec). intro Hx'. apply (In_sdel str_eqb str_eqb_spec) in Hx' as [_ Hx'].
+               apply smem_S_In in Hx'. congruence. }
+           rewrite E6. exact S1.
+      * rewrite sent_app. specialize (S1 b2 Hb2 y).
+        assert (E5 : sent y (j_id b2) (send_to n x (MSignal (j_pub b) (j_sig b) (j_args b) j)) = 0%nat).
+        { unfold send_to. destruct (can_send n x); unfold sent; simpl; [|reflexivity]. simpl in Hne. subst j.
+          replace (j_id b2 =? j_id b) with false by (symmetry; apply N.eqb_neq; exact Hne). rewrite andb_false_r. reflexivity. }
+        rewrite E5, Nat.add_0_r. exact S1.
+    + intros y p s a j0 Hin. apply in_app_iff in Hin as [Hin|Hin].
+      * destruct (S2 _ _ _ _ _ Hin) as (b2 & Hb2 & I1 & I2 & I3 & I4 & I5).
+        destruct (N.eq_dec (j_id b2) (j_id b)) as [Eid|Nid].
+        -- assert (b2 = b) by (eapply job_unique; eauto). subst b2. exists b'. split; [apply put_job_has; simpl; apply in_map; exact Hb|].
+           simpl. rewrite Ers in I5. auto.
+        -- exists b2. split; [apply put_job_keeps; [exact Hb2 | exact Nid] | auto].
+      * unfold send_to in Hin. destruct (can_send n x); [|destruct Hin]. destruct Hin as [E|[]]. inversion E; subst.
+        exists b'. split; [apply put_job_has; simpl; apply in_map; exact Hb|]. simpl. repeat split; try reflexivity. apply M3. exact Hx.
+  - pose proof (step_no_signal _ _ _ _ H Hi) as Hns. split.
+    + intros b' Hb' x. rewrite sent_app, (no_signal_sent _ _ _ Hns), Nat.add_0_r.
+      (* the job list changes only at IPubBegin / IPubDeliver / IPubSnapRemote; rsnap-related fields as stated *)
+      destruct (touches_pub i) eqn:Ht.
+      2: { pose proof (step_pub _ _ _ _ H Ht) as E. unfold pubpart in E. inversion E as [[E1 E2 E3 E4]]. rewrite E2 in Hb'. apply S1. exact Hb'. }
+      pose proof HJ as (H0 & H1 & H2 & H3 & H4 & H5).
+      destruct i; simpl in Ht; try discriminate; simpl in H.
+      * destruct (negb (valid_name p && valid_name s)); (apply some_fst in H; subst n'); simpl in Hb'; [apply S1; exact Hb'|].
+        apply in_app_iff in Hb' as [Hb'|[<-|[]]]; [apply S1; exact Hb'|]. simpl.
+        (* a new publication: nothing was sent under its number *)
+        unfold sent. destruct (filter (is_sig_to x (n_jobctr n)) os0) as [|e l] eqn:Ef; [simpl; lia|].
+        assert (Hin : In e (filter (is_sig_to x (n_jobctr n)) os0)) by (rewrite Ef; left; reflexivity).
+        apply filter_In in Hin as [Hin Hl]. destruct e as [y m|]; [|discriminate]. destruct m; try discriminate.
+        simpl in Hl. apply andb_true_iff in Hl as [_ Hl]. apply N.eqb_eq in Hl. subst j.
+        destruct (S2 _ _ _ _ _ Hin) as (b2 & Hb2 & I1 & _). specialize (H1 b2 Hb2). lia.
+      * destruct (find_job j (n_jobs n)) as [b0|] eqn:Ef; [|discriminate].
+        destruct (smem N.eqb r (j_todo b0)); [|discriminate]. (apply some_fst in H; subst n'). simpl in Hb'.
+        apply find_job_In in Ef as [Hb0 _].
+        apply In_put_job in Hb' as [->|[Hb' _]]; [simpl; apply (S1 b0 Hb0 x) | apply S1; exact Hb' | assumption].
+      * destruct (find_job j (n_jobs n)) as [b0|] eqn:Ef; [|discriminate].
+        destruct (j_todo b0) eqn:Et; [|discriminate]. destruct (j_rsnap b0) eqn:Ers; [discriminate|]. (apply some_fst in H; subst n'). simpl in Hb'.
+        apply find_job_In in Ef as [Hb0 _].
+        apply In_put_job in Hb' as [->|[Hb' _]]; [| apply S1; exact Hb' | assumption].
+        simpl. specialize (S1 b0 Hb0 x). rewrite Ers in S1. simpl in S1. lia.
+      * exfalso. eapply Hi. reflexivity.
+      * destruct m; try discriminate. (apply some_fst in H; subst n'). unfold deliver_remote in Hb'.
+        destruct (alookup str_eqb (key3 from pub sig) (n_lsubs n)); simpl in Hb'; apply S1; exact Hb'.
+    + intros x p s a j Hin. apply in_app_iff in Hin as [Hin|Hin]; [|exfalso; eapply Hns; eauto].
+      destruct (S2 _ _ _ _ _ Hin) as (b2 & Hb2 & I1 & I2 & I3 & I4 & I5).
+      destruct (step_job_persists nm _ _ _ _ b2 H HJ Hb2) as (b3 & Hb3 & Hle).
+      (* job_le does not speak about rsnap; redo by cases *)
+      destruct (touches_pub i) eqn:Ht.
+      2: { pose proof (step_pub _ _ _ _ H Ht) as E. unfold pubpart in E. inversion E as [[E1 E2 E3 E4]]. exists b2. rewrite E2. auto 10. }
+      pose proof HJ as (H0 & H1 & H2 & H3 & H4 & H5).
+      destruct i; simpl in Ht; try discriminate; simpl in H.
+      * destruct (negb (valid_name p0 && valid_name s0)); (apply some_fst in H; subst n'); simpl; exists b2; (split; [try (apply in_app_iff; left); exact Hb2 | auto 10]).
+      * destruct (find_job j0 (n_jobs n)) as [b0|] eqn:Ef; [|discriminate].
+        destruct (smem N.eqb r (j_todo b0)); [|discriminate]. (apply some_fst in H; subst n'). simpl.
+        apply find_job_In in Ef as [Hb0 _].
+        destruct (N.eq_dec (j_id b2) (j_id b0)) as [Eid|Nid].
+        -- assert (b2 = b0) by (eapply job_unique; eauto). subst b2. eexists. split; [apply put_job_has; simpl; apply in_map; exact Hb0|]. simpl. auto 10.
+        -- exists b2. split; [apply put_job_keeps; assumption | auto 10].
+      * destruct (find_job j0 (n_jobs n)) as [b0|] eqn:Ef; [|discriminate].
+        destruct (j_todo b0) eqn:Et; [|discriminate]. destruct (j_rsnap b0) eqn:Ers; [discriminate|]. (apply some_fst in H; subst n'). simpl.
+        apply find_job_In in Ef as [Hb0 _].
+        destruct (N.eq_dec (j_id b2) (j_id b0)) as [Eid|Nid].
+        -- assert (b2 = b0) by (eapply job_unique; eauto). subst b2. rewrite Ers in I5. destruct I5.
+        -- exists b2. split; [apply put_job_keeps; assumption | auto 10].
+      * exfalso. eapply Hi. reflexivity.
+      * destruct m; try discriminate. (apply some_fst in H; subst n'). unfold deliver_remote.
+        destruct (alookup str_eqb (key3 from pub sig) (n_lsubs n)); simpl; exists b2; auto 10.
+Qed.
+
+Lemma run_SInv nm ins : forall n n' os0 os,
+  node_run n ins = Some (n', os) -> Forall (fun i => input_ok nm i /\ input_wf i) ins -> NInv nm n ->
+  SInv n os0 -> SInv n' (os0 ++ os).
+Proof.
+  induction ins as [|i r IH]; simpl; intros n n' os0 os H Hf Hn HS.
+  - inversion H; subst. rewrite app_nil_r. exact HS.
+  - destruct (node_step n i) as [[n1 o1]|] eqn:E; [|discriminate].
+    destruct (node_run n1 r) as [[n2 o2]|] eqn:E2; [|discriminate]. inversion H; subst.
+    inversion Hf as [|? ? [Hi1 Hi2] Hf']; subst. destruct Hn as [HJ HK].
+    rewrite app_assoc. eapply IH; [exact E2 | exact Hf' | | eapply step_SInv; eauto].
+    split; [eapply step_JInv; eauto | eapply step_KW; eauto].
+Qed.
+
+Lemma remote_at_most_once nm objs ins n os b x :
+  nodot nm = true -> node_run (init_node nm objs) ins = Some (n, os) ->
+  Forall (fun i => input_ok nm i /\ input_wf i) ins -> In b (n_jobs n) ->
+  (sent x (j_id b) os <= if smem str_eqb x (opt_list (j_rsnap b)) && negb (smem str_eqb x (j_rtodo b)) then 1 else 0)%nat /\
+  (forall p s a, In (OSend x (MSignal p s a (j_id b))) os ->
+     p = j_pub b /\ s = j_sig b /\ a = j_args b /\ In x (opt_list (j_rsnap b))).
+Proof.
+  intros Hd Hr Hf Hb.
+  assert (HS0 : SInv (init_node nm objs) []) by (split; [intros b0 [] | intros ? ? ? ? ? []]).
+  pose proof (run_SInv nm _ _ _ _ _ Hr Hf (init_NInv nm objs Hd) HS0) as [S1 S2]. simpl in *.
+  split; [apply S1; exact Hb|].
+  intros p s a Hin. destruct (S2 _ _ _ _ _ Hin) as (b2 & Hb2 & I1 & I2 & I3 & I4 & I5).
+  assert (Hn : NInv nm n) by (eapply run_NInv; eauto; apply init_NInv; exact Hd).
+  destruct Hn as [(_ & _ & H2 & _) _].
+  assert (b2 = b) by (eapply job_unique; eauto). subst b2. auto.
+Qed.
+
+(* ------------------------------------------------------------------ FIFO channels (two-node system) *)
+Lemma route2_ch sd os : forall s sd', exists app, ch (route2 sd os s) sd' = ch s sd' ++ app.
+Proof.
+  induction os as [|o os IH]; intros s sd'; simpl; [exists []; rewrite app_nil_r; reflexivity|].
+  destruct o as [y m|r]; [|apply IH].
+  match goal with |- context [route2 sd os ?s1] => destruct (IH s1 sd') as [app E] end.
+  rewrite E. destruct (req_id_of m); destruct sd, sd'; simpl; eexists; try (rewrite <- app_assoc; reflexivity); reflexivity.
+Qed.
+
+Local Opaque node_step err_replies.
+
+Lemma channel_fifo s l s' os sd :
+  step2 s l = Some (s', os) ->
+  (exists app, ch s' sd = ch s sd ++ app) \/
+  (exists m rest app, ch s sd = m :: rest /\ ch s' sd = rest ++ app /\ l = L2Deliver sd) \/
+  (ch s' sd = [] /\ l = L2Connect).
+Proof.
+  intro H. destruct l as [sd0 i|sd0| |sd0]; simpl in H.
+  - destruct (api_input i); [|discriminate]. destruct (node_step (nd s sd0) i) as [[n' os']|]; [|discriminate].
+    inversion H; subst. left. destruct (route2_ch sd0 os (w_nd sd0 n' s) sd) as [app E]. exists app. rewrite E.
+    destruct sd0, sd; reflexivity.
+  - destruct (ch s sd0) as [|m rest] eqn:Ec; [discriminate|]. destruct (up s (negb sd0)); [|discriminate].
+    match type of H with match node_step ?a ?b with _ => _ end = _ => destruct (node_step a b) as [[n' os']|]; [|discriminate] end.
+    inversion H; subst.
+    match goal with |- context [route2 ?a os ?s1] => destruct (route2_ch a os s1 sd) as [app E] end.
+    destruct (Bool.bool_dec sd sd0) as [->|Hne].
+    + right. left. exists m, rest, app. split; [exact Ec|]. split; [|reflexivity]. rewrite E.
+      destruct (reply_id_of m); destruct sd0; reflexivity.
+    + left. exists app. rewrite E. destruct (reply_id_of m); destruct sd0, sd; try reflexivity; contradiction.
+  - destruct (negb (up s true) && negb (up s false)); [|discriminate].
+    destruct (node_step (sA s) (IPeerAdded (n_name (sB s)))) as [[a' ?]|]; [|discriminate].
+    destruct (node_step (sB s) (IPeerAdded (n_name (sA s)))) as [[b' ?]|]; [|discriminate].
+    inversion H; subst. right. right. split; [destruct sd; reflexivity | reflexivity].
+  - destruct (up s sd0); [|discriminate].
+    destruct (node_step (nd s sd0) (IPeerRemoved (n_name (nd s (negb sd0))))) as [[n1 ?]|]; [|discriminate].
+    destruct (err_replies n1 (cp s sd0)) as [n2 os2]. inversion H; subst. left.
+    match goal with |- context [route2 ?a os ?s1] => destruct (route2_ch a os s1 sd) as [app E] end.
+    exists app. rewrite E. destruct sd0, sd; reflexivity.
+Qed.
